@@ -55,7 +55,10 @@ ObsReset(e) ==
 \* ---- asynchronous operations (C01, C14) ----
 ObsCall(e) ==
   IF e.op \in DOMAIN ops THEN Fail("har/op-id-reused")
-  ELSE /\ ops' = ops @@ (e.op :> [o |-> e.o, dir |-> e.dir, st |-> "run", ret |-> FALSE, err |-> ""])
+  \* (late: the operation was started on an object whose Close had already begun - its error
+  \*  completion is not "a callback after Close" in the sense of the statement)
+  ELSE /\ ops' = ops @@ (e.op :> [o |-> e.o, dir |-> e.dir, st |-> "run", ret |-> FALSE, err |-> "",
+                                   late |-> (e.o \in DOMAIN ost /\ ost[e.o] # "open")])
        /\ UNCHANGED <<kinds, cls, lim, base, ost, csnap, tm, posted, ranp, anomaly, rnext, bad>>
 
 ObsRet(e) ==
@@ -69,7 +72,7 @@ ObsCbB(e) ==
   IF e.op \notin DOMAIN ops THEN Fail("har/unknown-op")
   ELSE LET r == ops[e.op] IN
     IF r.st = "done" THEN Fail("C01/double-completion/" \o Kind(r.o))
-    ELSE IF ost[r.o] = "closed" THEN Fail("C01/callback-after-close/" \o Kind(r.o))
+    ELSE IF ost[r.o] = "closed" /\ ~r.late THEN Fail("C01/callback-after-close/" \o Kind(r.o))
     ELSE IF cls = "chain" /\ e.depth > lim + 1 THEN Fail("C14/depth/" \o Kind(r.o))
     ELSE IF cls = "chain" /\ e.err # "nil" THEN Fail("C14/deferred-result/" \o Kind(r.o))
     \* a successful read / accept / datagram read delivers the oldest unit the peer queued (tokens count up
